@@ -1023,7 +1023,22 @@ class Interp:
         self.bind_pattern(e["pat"], elem, body_start)
         snap_env = {k: v for k, v in st.env.items()}
         snap_buf = list(st.buf)
-        results = self.ev(e["body"], body_start)
+        # separator bookkeeping: `if !acc.is_empty() { acc.push(' ') }` in front of the pieces appended to an accumulator that
+        # is empty when the loop starts is `join(' ')` of the (non-empty) pieces; the statement is taken out of the body and
+        # the separator is attached to the accumulated part
+        seps = {}
+        body_ = e["body"]
+        if body_.get("k") == "block":
+            kept = []
+            for st_ in body_["stmts"]:
+                sp = self._separator_stmt(st_, snap_env)
+                if sp is not None and sp[0] not in seps:
+                    seps[sp[0]] = sp[1]
+                    continue
+                kept.append(st_)
+            if seps:
+                body_ = dict(body_, stmts=kept)
+        results = self.ev(body_, body_start)
         # which accumulators changed, and by what, on each path of the body
         deltas = {}  # name -> [(conds, appended value)]
         problems = []
@@ -1077,7 +1092,12 @@ class Interp:
             before = snap_env[name]
             kinds = {self._delta_kind(d) for _, d in alts if d is not None}
             if kinds == {"str"} and is_str(before):
-                out_state.env[name] = S(before["parts"] + [("join", mapped, "")])
+                sep_ = seps.get(name, "")
+                if sep_:
+                    # join semantics need every appended piece to be non-empty (an empty first piece would lose its separator)
+                    if not all(d is None or any(p_[0] == "c" and p_[1] for p_ in d["parts"]) for _, d in alts):
+                        out_state.unknown.append("for-loop over a symbolic collection: separator logic on `%s` with a piece that may be empty" % name)
+                out_state.env[name] = S(before["parts"] + [("join", mapped, sep_)])
             elif kinds == {"items"} and isinstance(before, dict) and before.get("v") == "list":
                 out_state.env[name] = {"v": "mapped", "of": coll, "elems": [(cnd, (d["items"][0] if d is not None and len(d["items"]) == 1 else {"v": "list", "items": d["items"] if d else []})) for cnd, d in alts], "how": "for", "src": src(e["iter"]), "prefix": before["items"]}
             elif kinds == {"entries"}:
@@ -1091,6 +1111,29 @@ class Interp:
             b.ret = rv
             res.append((b, {"v": "never"}))
         return res
+
+    def _separator_stmt(self, st_, env):
+        """(accumulator name, separator text) for `if !ACC.is_empty() { ACC.push(C); }` with ACC a local string that is empty
+        before the loop, else None"""
+        if st_.get("k") != "expr" or st_["e"].get("k") != "if" or st_["e"].get("else") is not None:
+            return None
+        c_ = st_["e"]["cond"]
+        if not (c_.get("k") == "unary" and c_["op"] == "!" and c_["e"].get("k") == "mcall" and c_["e"]["m"] == "is_empty" and not c_["e"]["args"]):
+            return None
+        acc = rx.var_name(c_["e"]["recv"])
+        cur = env.get(acc) if acc else None
+        if not (is_str(cur) and not cur["parts"]):
+            return None
+        th = [x for x in st_["e"]["then"]["stmts"] if x["k"] != "item"]
+        if len(th) != 1 or th[0]["k"] != "expr":
+            return None
+        pe_ = th[0]["e"]
+        if not (pe_.get("k") == "mcall" and pe_["m"] in ("push", "push_str") and len(pe_["args"]) == 1 and rx.var_name(pe_["recv"]) == acc):
+            return None
+        a0 = rx.peel(pe_["args"][0])
+        if a0.get("k") == "lit" and a0.get("t") in ("char", "str") and a0["v"]:
+            return acc, a0["v"]
+        return None
 
     def _delta_kind(self, d):
         if is_str(d):
@@ -1337,6 +1380,32 @@ class Interp:
             if tgt is not None:
                 st.env[tgt] = dict(rv, items=rv["items"] + [argv[0]])
                 return [(st, {"v": "unit"})]
+        if k == "list" and not rv.get("field") and m == "extend" and len(argv) == 1:
+            # extend with an Option is "push if Some"; with a known list it appends its items
+            tgt = self._local_name(e["recv"], st)
+            a0 = argv[0]
+            if tgt is not None and isinstance(a0, dict):
+                if a0.get("v") == "some":
+                    st.env[tgt] = dict(rv, items=rv["items"] + [a0["x"]])
+                    return [(st, {"v": "unit"})]
+                if a0.get("v") == "none":
+                    return [(st, {"v": "unit"})]
+                if a0.get("v") == "list" and not a0.get("open") and not a0.get("field"):
+                    st.env[tgt] = dict(rv, items=rv["items"] + list(a0["items"]))
+                    return [(st, {"v": "unit"})]
+                if a0.get("v") == "hole":
+                    prior = [c0[1] for c0 in st.conds if c0[0] == canon(a0) and c0[1] in ("Some", "None")]
+                    out_ = []
+                    for lab in ("Some", "None"):
+                        if prior and prior[-1] != lab:
+                            continue
+                        s2 = st.fork()
+                        if not prior:
+                            s2.conds = s2.conds + ((canon(a0), lab),)
+                        if lab == "Some":
+                            s2.env[tgt] = dict(rv, items=rv["items"] + [some_of(a0)])
+                        out_.append((s2, {"v": "unit"}))
+                    return out_
         if k == "str" and m in ("push_str", "push") and len(argv) == 1:
             tgt = self._local_name(e["recv"], st)
             if tgt is not None:
